@@ -125,11 +125,15 @@ type Model struct {
 
 	// pending freedoms for the next CompareListing
 	sweepAllowed bool
-	evictMin     int
-	evictMax     int
-	newAnon      []*Msg        // enqueued without explicit id: id to be adopted
-	fresh        map[*Msg]bool // inserted by the operation being compared
-	doubtDeq     *doubtDequeue
+	// SweepStallUntil: after a backward clock step, the instant up to which a
+	// backend that throttles its lease sweep by clock time may leave an expired
+	// lease in place (see storeworld "clockback")
+	SweepStallUntil time.Time
+	evictMin        int
+	evictMax        int
+	newAnon         []*Msg        // enqueued without explicit id: id to be adopted
+	fresh           map[*Msg]bool // inserted by the operation being compared
+	doubtDeq        *doubtDequeue
 
 	// LiftedAboveDepth: an operator requeue/resume took the active count above
 	// max_depth; the depth clauses of C12 exclude such histories until the
@@ -679,7 +683,7 @@ func (m *Model) Dequeue(now time.Time, req queue.DequeueRequest, resp queue.Dequ
 				may[x.ID] = true
 				if !m.pruneEligibleIfSwept(x, now) {
 					mustIfSwept[x.ID] = true
-					if !x.LeaseUntil.After(now.Add(-grace)) {
+					if !x.LeaseUntil.After(now.Add(-grace)) && !now.Before(m.SweepStallUntil) {
 						must[x.ID] = true
 					}
 				}
@@ -1468,7 +1472,7 @@ func (m *Model) Hash() uint64 {
 func (m *Model) Clone() *Model {
 	c := &Model{Cfg: m.Cfg, Msgs: make(map[string]*Msg, len(m.Msgs)), seq: m.seq,
 		Lease: make(map[string]string, len(m.Lease)), Gone: make(map[string]string, len(m.Gone)), Reused: make(map[string]bool, len(m.Reused)),
-		sweepAllowed: m.sweepAllowed, evictMin: m.evictMin, evictMax: m.evictMax, Stats: m.Stats}
+		sweepAllowed: m.sweepAllowed, evictMin: m.evictMin, evictMax: m.evictMax, Stats: m.Stats, SweepStallUntil: m.SweepStallUntil}
 	old2new := map[*Msg]*Msg{}
 	for id, x := range m.Msgs {
 		y := *x
